@@ -150,16 +150,17 @@ impl<'a> AsciiDecLit<'a> {
 
     /// Convert the leading sequence of decimal digits in `self` (if any) into
     /// an int and accumulate it into `coeff`.
-    // The function uses wrapping_mul and wrapping_add, so overflow can
-    // happen; it must be checked later!
-    fn accum_coeff(&mut self, coeff: &mut u128) -> usize {
+    // The function uses overflowing_mul and overflowing_add; any overflow is
+    // recorded in `overflow` and must be checked later!
+    fn accum_coeff(&mut self, coeff: &mut u128, overflow: &mut bool) -> usize {
         let start_len = self.len();
         // First, try chunks of 8 digits
         while let Some(k) = self.read_u64() {
             if chunk_contains_8_digits(k) {
-                *coeff = coeff
-                    .wrapping_mul(100000000)
-                    .wrapping_add(chunk_to_u64(k) as u128);
+                let (t, o1) = coeff.overflowing_mul(100000000);
+                let (t, o2) = t.overflowing_add(chunk_to_u64(k) as u128);
+                *coeff = t;
+                *overflow |= o1 | o2;
                 // Safety: safe because of call to self.read_u64 above
                 unsafe {
                     self.skip_n(8);
@@ -172,7 +173,10 @@ impl<'a> AsciiDecLit<'a> {
         while let Some(c) = self.first() {
             let d = c.wrapping_sub(b'0');
             if d < 10 {
-                *coeff = coeff.wrapping_mul(10).wrapping_add(d as u128);
+                let (t, o1) = coeff.overflowing_mul(10);
+                let (t, o2) = t.overflowing_add(d as u128);
+                *coeff = t;
+                *overflow |= o1 | o2;
                 // Safety: safe because of call to self.first above
                 unsafe {
                     self.skip_1();
@@ -247,15 +251,16 @@ pub fn str_to_dec(lit: &str) -> Result<(i128, isize), ParseDecimalError> {
         return Ok((0, 0));
     }
     let mut coeff = 0_u128;
+    let mut overflow = false;
     // Parse integral digits.
-    let n_int_digits = lit.accum_coeff(&mut coeff);
+    let n_int_digits = lit.accum_coeff(&mut coeff, &mut overflow);
     // Check for radix point and parse fractional digits.
     let mut n_frac_digits = 0_usize;
     if let Some(c) = lit.first() {
         if *c == b'.' {
             // Safety: safe because of condition above
             unsafe { lit.skip_1() };
-            n_frac_digits = lit.accum_coeff(&mut coeff);
+            n_frac_digits = lit.accum_coeff(&mut coeff, &mut overflow);
         }
     }
     let n_digits = n_int_digits + n_frac_digits;
@@ -263,14 +268,9 @@ pub fn str_to_dec(lit: &str) -> Result<(i128, isize), ParseDecimalError> {
         return Err(ParseDecimalError::Invalid);
     }
     // check for overflow
-    // 1. 10^e > i128::MAX for e > 39
-    // 2. e = 39 && coeff < 10³⁸ (overflow occured during accumulation)
-    // 3. coeff > i128::MAX
-    if n_digits > 39
-        || n_digits == 39
-            && coeff < 100000000000000000000000000000000000000_u128
-        || coeff > i128::MAX as u128
-    {
+    // 1. overflow occured during accumulation
+    // 2. coeff > i128::MAX
+    if overflow || coeff > i128::MAX as u128 {
         return Err(ParseDecimalError::InternalOverflow);
     }
     let mut exp = 0_isize;
